@@ -220,6 +220,8 @@ type Outcome struct {
 	Rt  string   `json:"rt,omitempty"`
 	Rts []string `json:"rts,omitempty"`
 	Len *int     `json:"len,omitempty"`
+	G   string   `json:"g,omitempty"`
+	Big bool     `json:"big,omitempty"`
 }
 
 type OutEntry struct {
